@@ -54,10 +54,18 @@ package mergeplan
 //@   loop 2
 //@     invariant forall m int :: (0 <= m && m <= rangeindex) ==> (tag(segment) != elemsk(toRemove, 0)[off(toRemove) + m] || iref(segment) != elemsk(toRemove, 1)[off(toRemove) + m])
 
-//@ func CalcBudget
+// the budget, tier by tier: a tier that the remaining data does not fill contributes the (rounded up) number
+// of segments of its size that the data makes; a full tier contributes MaxSegmentsPerTier and the next
+// tier is TierGrowth times larger (truncated) — this is what makes the budget logarithmic in the data
+//@ spec fn rec budgetFrom(total int, tier int, per int, g real) int = ite(total <= 0, 0, ite(real(total) / real(tier) < real(per), toint(ceilr(real(total) / real(tier))), per + budgetFrom(total - per * tier, toint(real(tier) * g), per, g)))
+//@ func CalcBudget(totalSize, firstTierSize, o) (budgetNumSegments)
 //@   nopanic nonil
 //@   pure
 //@   requires o != nil
+//@   ensures [tiers-grow-by-the-configured-factor] budgetNumSegments == budgetFrom(totalSize, ite(firstTierSize < 1, 1, firstTierSize), ite(o.MaxSegmentsPerTier < 1, 1, o.MaxSegmentsPerTier), ite(o.TierGrowth < 1.0, 1.0, o.TierGrowth))
+//@   loop 1
+//@     invariant tierSize >= 1 && maxSegmentsPerTier >= 1 && tierGrowth >= 1.0
+//@     invariant budgetNumSegments + budgetFrom(totalSize, tierSize, maxSegmentsPerTier, tierGrowth) == budgetFrom(old(totalSize), ite(firstTierSize < 1, 1, firstTierSize), maxSegmentsPerTier, tierGrowth)
 
 // callers in package index treat the planner as a black box (its result is arbitrary for them)
 //@ func Plan
